@@ -22,6 +22,9 @@ sys.path.insert(0, os.path.dirname(os.path.abspath(__file__)))
 from script_gen import S  # noqa: E402
 
 NAMES = ["a", "b", "c", "u", "v", "x", "y", "metre", "second", "né", 'q"t', "long_name_1"]
+# unit references: standard unit names or names no units of a world carries (a units that refers to itself or to a
+# cycle sends Model::hasImports() -- called by the Printer -- into unbounded recursion: finding K3 of C01, not clone's)
+REFS = ["metre", "second", "kilogram", "r_a", "r_b", "r\u00e9f"]
 IDS = ["", "", "", "id1", "id2", "b4da55", "i\"d", "x"]
 MATHS = ["", "", "<math xmlns=\"http://www.w3.org/1998/Math/MathML\"><apply><eq/><ci>x</ci><cn cellml:units=\"u\">1</cn></apply></math>",
          "<math/>", "not xml"]
@@ -172,7 +175,7 @@ class World:
         u.id = self.s(IDS)
         self.maybe_import(u)
         for _ in range(r.choice([0, 0, 1, 1, 2, 3])):
-            u.defs.append((self.s(NAMES), norm_prefix(self.s(PREFIXES)), self.s(FLOATS), self.s(FLOATS), self.s(IDS)))
+            u.defs.append((self.s(REFS), norm_prefix(self.s(PREFIXES)), self.s(FLOATS), self.s(FLOATS), self.s(IDS)))
         return u
 
     def mk_var(self):
@@ -766,7 +769,7 @@ def random_mutation(rng, root_sx, label, kind, node, as_label):
             sc, sx = new_isrc()
             return (sc + ["setimportsource %s %d" % (t, NEW)], "(MUnitsImp %s %s)" % (tl, sx))
         if c == 4:
-            ref, pre, ex, mu, i = s(NAMES), s(PREFIXES), s(FLOATS), s(FLOATS), s(IDS)
+            ref, pre, ex, mu, i = s(REFS), s(PREFIXES), s(FLOATS), s(FLOATS), s(IDS)
             return (["addunit %s %s %s %s %s %s" % (t, hx(ref), hx(pre), repr(ex), repr(mu), hx(i))],
                     "(MUnitsAddUnit %s (d %s %s %s %s %s))" % (tl, hx(ref), hx(pre), fl(ex), fl(mu), hx(i)))
         k = rng.randrange(0, len(node) - 7 + 1) if rng.random() < 0.9 else 7
